@@ -1124,7 +1124,7 @@ def float_model_batch(ctx, cases, impls, stats):
           and len(impls[k]["P"]) == len(impls[k]["cells"])]
     if not ks:
         return {}
-    src = ["From Coq Require Import Floats List Bool.\nFrom TK Require Import QuadTree_Float_Model QuadTree_Proof_Float.\n"
+    src = ["From Coq Require Import Floats List Bool.\nFrom TK Require Import QuadTree_Float_Model QuadTree_Proof_Float QuadTree_Float_Dup.\n"
            "Import ListNotations.\nLocal Open Scope float_scope.\n"]
     for k in ks:
         c, d = cases[k], impls[k]
@@ -1144,8 +1144,14 @@ def float_model_batch(ctx, cases, impls, stats):
             # the cell and the point of the theorem (QuadTree_Proof_Float.v) are in this real dump / this case
             w = ("(existsb (fcell_same (%s)) cells%d && fsame (fst (nth %d pts%d (0, 0))) (fst %s) && "
                  "fsame (snd (nth %d pts%d (0, 0))) (snd %s))" % (wit[0], k, wit[2], k, wit[1], wit[2], k, wit[1]))
+        # the duplicate test of insert() (QuadTree_Float_Dup.fdup = IEEE `!=` per coordinate, the REAL sign bits of the
+        # zeros in pts): for every occupied leaf, how many of the inserted indices are duplicates of the stored point
+        stored = [cell[6] for cell in cells if cell[5] > 0]
+        if any(not (0 <= j < len(P)) for j in stored) or any(not (0 <= j < len(P)) for j in d["ins"]):
+            stored = []
         src.append("Eval vm_compute in (fcase_children_ok nodes%d, %s, fcase_cracks nodes%d pts%d, "
-                   "fcase_contains cells%d pts%d).\n" % (k, w, k, k, k, k))
+                   "fcase_contains cells%d pts%d, fcase_dupcounts pts%d [%s]%%nat [%s]%%nat, fcase_negzeros pts%d).\n"
+                   % (k, w, k, k, k, k, k, "; ".join(str(i) for i in d["ins"]), "; ".join(str(j) for j in stored), k))
     path = os.path.join(ctx.build, "C18_float_cases.v")
     with open(path, "w") as fh:
         fh.write("".join(src))
@@ -1167,11 +1173,11 @@ def float_model_batch(ctx, cases, impls, stats):
         body = re.split(r"^\s+: ", ch, flags=re.M)[0]
         body = " ".join(body.split()).replace("%nat", "").replace(";", ",").replace("true", "True").replace("false", "False")
         try:
-            ok, wit, cracks, contains = ast.literal_eval(body)
+            ok, wit, cracks, contains, dupc, negz = ast.literal_eval(body)
         except (ValueError, SyntaxError) as ex:
             raise vlib.BuildError("binary64 (PrimFloat) evaluation: unparsable result: %s" % ex)
         out[k] = {"children_ok": bool(ok), "witness": bool(wit), "cracks": [(a, list(b)) for a, b in cracks],
-                  "contains": [list(r) for r in contains]}
+                  "contains": [list(r) for r in contains], "dupcounts": list(dupc), "negzeros": int(negz)}
         stats["float_model_cases"] += 1
         stats["float_model_cells"] += len(impls[k]["cells"])
         stats["float_model_contains_evals"] += len(impls[k]["cells"]) * len(cases[k]["pts"])
@@ -1209,6 +1215,23 @@ def check_float_model(ctx, c, d, fm, stats):
                        "phantom_mass_binary64_refuted", c["corpus_name"]))
         if not fm["cracks"]:
             return "the binary64 model finds no crack in the real dump of corpus case %s" % c["corpus_name"]
+    # the sign bits Python wrote are the ones Coq read (and the harness counted, see evaluate)
+    if fm["negzeros"] != sum(1 for pq in c["pts"] for v in pq if is_negzero(v)):
+        raise RuntimeError("internal: %d negative zeros in the case, Coq's primitive floats read %d" % (
+            sum(1 for pq in c["pts"] for v in pq if is_negzero(v)), fm["negzeros"]))
+    # count[0] of every occupied leaf = the number of inserted indices the binary64 duplicate test
+    # (QuadTree_Float_Dup.fdup; Properties_C18.duplicate_test_binary64_is_exact_model) identifies with the stored point;
+    # only where nothing was dropped (no crack in the dump, every insert() succeeded)
+    stored = [(ci, cell) for ci, cell in enumerate(cells) if cell[5] > 0]
+    if not fm["cracks"] and len(fm["dupcounts"]) == len(stored) and (c["mode"] != "E" or all(b == 1 for b in d["R"])):
+        for (ci, cell), want in zip(stored, fm["dupcounts"]):
+            stats["float_model_dup_leaves"] += 1
+            if want >= 2:
+                stats["float_model_dup_leaves_multi"] += 1
+            if cell[7] != -1 and cell[7] != want:
+                return ("leaf %d stores index %d with count[0] = %d, but %d of the inserted indices are duplicates of that "
+                        "point by the duplicate test of insert() in binary64 (IEEE `!=` per coordinate, "
+                        "QuadTree_Float_Dup.fdup)" % (ci, cell[6], cell[7], want))
     # Python's own crack classification (doubles) must be the model's
     P = [(fl(a), fl(b)) for a, b in c["pts"]]
     kids = tree_children(cells)
@@ -2030,7 +2053,8 @@ def new_stats():
             "float_replay_near_tie": 0, "float_replay_ill_conditioned": 0, "grad_cases": 0, "grad_replayed": 0, "grad_exact": 0, "grad_bound": 0, "cell_count_checks": 0,
             "float_model_cases": 0, "float_model_cells": 0, "float_model_contains_evals": 0, "float_model_cracks": 0,
             "float_model_witness_checked": 0, "internal_cells_in_exact_class": 0, "internal_cells_outside_exact_class": 0, "float_model_coqc_seconds": 0.0, "scaled_twins": 0, "scaled_max_depth": 0,
-            "neg_zero_coords_fed": 0, "cases_with_neg_zero": 0, "cases_signed_zero_twins": 0}
+            "neg_zero_coords_fed": 0, "cases_with_neg_zero": 0, "cases_signed_zero_twins": 0,
+            "float_model_dup_leaves": 0, "float_model_dup_leaves_multi": 0}
 
 
 def run_batch(ctx, exe, mexe, cases, stats, with_model=True):
@@ -2103,7 +2127,7 @@ def run(ctx):
     # the binary64 model (Coq primitive floats) runs on the real dump of: corpus, every tolerance-stream case, every
     # scaled case, every 8th other case
     for i, c in enumerate(cases):
-        if c["kind"].startswith("tol") or c["kind"].startswith("scale") or i % 8 == 0:
+        if c["kind"].startswith("tol") or c["kind"].startswith("scale") or c["kind"] == "signed_zero" or i % 8 == 0:
             c["fm"] = True
     n = 0
     for i in range(0, len(cases), 600):
